@@ -45,6 +45,17 @@ def run_combine(inloglam, flux, newloglam, ivar, kwargs):
                     'bmask': [bool(v) for v in np.atleast_1d(outmask)], 'nord': int(sset.nord)})
         return sset, outmask
     SP.iterfit = spy
+    stage = {}
+    orig_smooth, orig_aes = SP.smooth, SP.aesthetics
+
+    def spy_smooth(signal, owidth, **kw):
+        stage.setdefault('pre_ivar', fl(signal))          # newivar before the growth of bad regions
+        return orig_smooth(signal, owidth, **kw)
+
+    def spy_aes(flux_, invvar_, method='traditional'):
+        stage.setdefault('pre_flux', fl(flux_))           # spline values before the cosmetic fill
+        return orig_aes(flux_, invvar_, method=method)
+    SP.smooth, SP.aesthetics = spy_smooth, spy_aes
     iv = None if ivar is None else ivar.copy()
     try:
         with warnings.catch_warnings():
@@ -52,8 +63,12 @@ def run_combine(inloglam, flux, newloglam, ivar, kwargs):
             nf, ni = SP.combine1fiber(inloglam.copy(), flux.copy(), newloglam.copy(), objivar=iv, **kwargs)
     finally:
         SP.iterfit = orig
+        SP.smooth, SP.aesthetics = orig_smooth, orig_aes
     out = {'newflux': fl(nf), 'newivar': fl(ni), 'len_flux': int(np.asarray(nf).size), 'len_ivar': int(np.asarray(ni).size),
            'finite': bool(np.all(np.isfinite(nf)) and np.all(np.isfinite(ni)))}
+    if 'pre_ivar' in stage and 'pre_flux' in stage and all(np.isfinite(stage['pre_ivar'])) and all(np.isfinite(stage['pre_flux'])):
+        out['pre_ivar'] = stage['pre_ivar']
+        out['pre_flux'] = stage['pre_flux']
     # ---- glue: the grouping, with the expressions of the source
     inr = inloglam.ravel()
     npix = inr.size
